@@ -243,6 +243,9 @@ func (w *twkbWriter) writeGeometryByType(g Geometry) error {
 
 func (w *twkbWriter) writePoint(pt Point) error {
 	w.writeTypeAndPrecision(twkbTypePoint)
+	if err := w.checkNoIDList(); err != nil {
+		return err
+	}
 
 	if ctype := pt.CoordinatesType(); ctype != w.ctype {
 		return fmt.Errorf("mismatched Point coordinate dimensions got %s expected %s", ctype, w.ctype)
@@ -275,6 +278,9 @@ func (w *twkbWriter) writePointCoords(pt Point) {
 
 func (w *twkbWriter) writeLineString(ls LineString) error {
 	w.writeTypeAndPrecision(twkbTypeLineString)
+	if err := w.checkNoIDList(); err != nil {
+		return err
+	}
 
 	if ctype := ls.CoordinatesType(); ctype != w.ctype {
 		return fmt.Errorf("mismatched LineString coordinate dimensions got %s expected %s", ctype, w.ctype)
@@ -309,6 +315,9 @@ func (w *twkbWriter) writeRing(ls LineString) {
 
 func (w *twkbWriter) writePolygon(poly Polygon) error {
 	w.writeTypeAndPrecision(twkbTypePolygon)
+	if err := w.checkNoIDList(); err != nil {
+		return err
+	}
 
 	if ctype := poly.CoordinatesType(); ctype != w.ctype {
 		return fmt.Errorf("mismatched Polygon coordinate dimensions got %s expected %s", ctype, w.ctype)
@@ -349,6 +358,9 @@ func (w *twkbWriter) writeMultiPoint(mp MultiPoint) error {
 	}
 
 	if mp.IsEmpty() {
+		if err := w.checkNoIDList(); err != nil {
+			return err
+		}
 		w.writeIsEmptyHeader()
 		return nil
 	}
@@ -383,6 +395,9 @@ func (w *twkbWriter) writeMultiLineString(ml MultiLineString) error {
 	}
 
 	if ml.IsEmpty() {
+		if err := w.checkNoIDList(); err != nil {
+			return err
+		}
 		w.writeIsEmptyHeader()
 		return nil
 	}
@@ -410,6 +425,9 @@ func (w *twkbWriter) writeMultiPolygon(mp MultiPolygon) error {
 	}
 
 	if mp.IsEmpty() {
+		if err := w.checkNoIDList(); err != nil {
+			return err
+		}
 		w.writeIsEmptyHeader()
 		return nil
 	}
@@ -437,6 +455,9 @@ func (w *twkbWriter) writeGeometryCollection(gc GeometryCollection) error {
 	}
 
 	if gc.IsEmpty() {
+		if err := w.checkNoIDList(); err != nil {
+			return err
+		}
 		w.writeIsEmptyHeader()
 		return nil
 	}
@@ -615,6 +636,16 @@ func (w *twkbWriter) writeSizeHeader(bboxLength, contentsLength int) {
 
 	// Insert the size header after any other headers.
 	w.twkbHeaders = append(w.twkbHeaders, buf[:n]...)
+}
+
+// checkNoIDList gives an error if an ID list was supplied for a geometry that
+// cannot carry one: a Point, LineString or Polygon (which have no members), or
+// an empty collection (whose encoding has no room for it).
+func (w *twkbWriter) checkNoIDList() error {
+	if w.hasIDs {
+		return fmt.Errorf("unexpected ID list length %d, expected 0", len(w.idList))
+	}
+	return nil
 }
 
 func (w *twkbWriter) writeIDList(num int) error {
